@@ -5,7 +5,7 @@ import ast
 import itertools
 
 from ..absval import Undecided, eval_expr, eval_resolved
-from ..core import (AnalysisError, call_name, dotted, is_const, kwarg, local_defs, norm, origin,
+from ..core import (alpha, AnalysisError, call_name, dotted, is_const, kwarg, local_defs, norm, origin,
                     parent_map, walk_local)
 from ..facts import guards_of, returns_of, enclosing_loops, default_of
 from ..rules import matcher as M
@@ -132,7 +132,7 @@ def isomorphic(rep):
             if isinstance(asg.targets[0], ast.Tuple) and isinstance(asg.value, ast.Tuple):
                 tg = [norm(e) for e in asg.targets[0].elts]
                 vs = [norm(e) for e in asg.value.elts]
-                if tg == [a, b] and vs == [b, a] and isinstance(t.ops[0], ast.Gt) and l == f"{a}.number_of_nodes()" and r == f"{b}.number_of_nodes()":
+                if tg == [a, b] and vs == [b, a] and pmatch(f"{a}.number_of_nodes() > {b}.number_of_nodes()", t) is not None:
                     smaller_first = True
     rets = returns_of(fi.node)
     verdict = [r for r in rets if any(isinstance(n, ast.Call) and call_name(n) in (M.SUB_METHODS | M.ISO_METHODS) for n in ast.walk(r))]
@@ -196,12 +196,19 @@ def helpers(rep):
         gs = [t for t, s_ in guards_of(pm, r, fi.node) if s_]
         rep.ob("O7.1", "R2", fi, any(isinstance(g, ast.Call) and call_name(g) == "is_isomorphic" for g in gs), r, "a mapping is returned only after is_isomorphic() succeeded", node=r)
     # fast invariants are necessary conditions of isomorphism
+    import re as _re
+    P1, P2 = fi.params[:2]
+
+    def _inv(e):
+        """the invariant expression with both graph parameters replaced by one symbol"""
+        return _re.sub(rf"\b({_re.escape(P1)}|{_re.escape(P2)})\b", "G", norm(origin(defs, e)))
     for st in [n for n in walk_local(fi.node) if isinstance(n, ast.If)]:
-        t = norm(st.test)
-        if any(isinstance(x, ast.Return) for x in st.body) and ("number_of" in t or "degs" in t):
-            ok = isinstance(st.test, ast.Compare) and isinstance(st.test.ops[0], ast.NotEq) and \
-                norm(st.test.left).replace("G1", "G").replace("degs1", "degs") == norm(st.test.comparators[0]).replace("G2", "G").replace("degs2", "degs")
-            rep.ob("O7.3", "FILTER", fi, ok, st.test, "quick rejection compares the same invariant of both graphs for inequality", node=st)
+        quick = any(isinstance(x, ast.Return) and is_const(x.value, None) or isinstance(x, ast.Return) and is_const(x.value, False) for x in st.body)
+        if quick and isinstance(st.test, ast.Compare) and len(st.test.ops) == 1 and not any(isinstance(c_, ast.Call) and call_name(c_) in M.ISO_METHODS for c_ in ast.walk(st.test)):
+            l_, r_ = st.test.left, st.test.comparators[0]
+            uses = {n_.id for n_ in ast.walk(origin(defs, l_)) if isinstance(n_, ast.Name)} | {n_.id for n_ in ast.walk(origin(defs, r_)) if isinstance(n_, ast.Name)}
+            ok = isinstance(st.test.ops[0], (ast.NotEq, ast.IsNot)) and _inv(l_) == _inv(r_) and {P1, P2} <= uses
+            rep.ob("O7.3", "FILTER", fi, ok, alpha(st.test, fi.node), "quick rejection compares the same invariant of both graphs for inequality", node=st)
     gi = rep.f(MO, "graph_isomorphism")
     cs = [c for c in walk_local(gi.node) if isinstance(c, ast.Call) and call_full_is(c, "nx.is_isomorphic")]
     rep.need("R2", len(cs), 1, "nx.is_isomorphic in graph_isomorphism")
